@@ -1,19 +1,78 @@
-(* C20 - regression witness for the repaired defect: MidiMappernRT::clear()
+(* C20 - regression witnesses for the repaired defects.
+   (1) MidiMappernRT::clear()
    before the fix emptied the learn queue without withdrawing the watches the
    queued addresses had been given.  The old function and the history on which
-   the property fails with it (a fully synchronous, quiescent history). *)
+   the property fails with it (a fully synchronous, nocross history). *)
 From Coq Require Import List ZArith Bool.
-From RtoscV Require Import Midi.MidiModel Midi.MidiSpec.
+From RtoscV Require Import Midi.MidiModel Midi.MidiSpec Midi.MidiProofs.
 Import ListNotations.
 Local Open Scope Z_scope.
 
+(* the functions as they were before the D19 fix (2); the clear() witness (1)
+   is about the code of its time, i.e. with these *)
+Definition rt_deliver_old (r : rt) (m : rmsg) : option rt :=
+  match m with
+  | RBind ns _ =>
+      match pq_pop (pending r) with
+      | None => None
+      | Some p' =>
+          match rstorage r with
+          | None => Some {| rstorage := Some ns; pending := p'; watch := watch r |}
+          | Some old =>
+              match cloneValues ns old with
+              | Some ns' => Some {| rstorage := Some ns'; pending := p'; watch := watch r |}
+              | None => None
+              end
+          end
+      end
+  | _ => rt_deliver r m
+  end.
+
+Definition nrt_useFreeID_old (ports : list port) (n : nrt) (id : Z) : option (nrt * list rmsg) :=
+  match learnQ n with
+  | [] => Some (n, [])
+  | _ => nrt_useFreeID ports n id
+  end.
+
+Definition step_old19 (ports : list port) (w : world) (e : event) : option (world * list obs) :=
+  match e with
+  | EDelN =>
+      match chN w with
+      | [] => Some (w, [OE])
+      | id :: rest =>
+          nrt_result {| wn := wn w; wr := wr w; chN := rest; chR := chR w |}
+                     (nrt_useFreeID_old ports (wn w) id)
+                     [OA id (hd_error (learnQ (wn w)))]
+      end
+  | EDelR =>
+      match chR w with
+      | [] => Some (w, [OE])
+      | m :: rest =>
+          match rt_deliver_old (wr w) m with
+          | None => None
+          | Some r' => Some ({| wn := wn w; wr := r'; chN := chN w; chR := rest |}, [])
+          end
+      end
+  | _ => step ports w e
+  end.
+
+Fixpoint run_old19 (ports : list port) (w : world) (es : list event) : list (list obs) * option world :=
+  match es with
+  | [] => ([], Some w)
+  | e :: r =>
+      match step_old19 ports w e with
+      | None => ([], None)
+      | Some (w', o) => let '(tr, fin) := run_old19 ports w' r in (o :: tr, fin)
+      end
+  end.
+
 Definition nrt_clear_old (n : nrt) : option (nrt * list rmsg) :=
-  Some ({| nstorage := Some empty_store; inv_map := []; learnQ := [] |}, [RBind empty_store]).
+  Some ({| nstorage := Some empty_store; inv_map := []; learnQ := [] |}, [RBind empty_store (-1)]).
 
 Definition step_old (ports : list port) (w : world) (e : event) : option (world * list obs) :=
   match e with
   | EClear => nrt_result w (nrt_clear_old (wn w)) []
-  | _ => step ports w e
+  | _ => step_old19 ports w e
   end.
 
 Fixpoint run_old (ports : list port) (w : world) (es : list event) : list (list obs) * option world :=
@@ -40,7 +99,7 @@ Definition leak_history : list event :=
 Lemma clear_watch_leak_refuted :
   exists tr fin,
     run_old leak_ports world0 leak_history = (tr, Some fin) /\
-    quiescent leak_history tr = true /\
+    nocross leak_history tr = true /\
     nth_error tr 5 = Some [OA 6 None] /\            (* offered, nothing queued *)
     nth_error tr 8 = Some [] /\                     (* p1 queued, 6 not taken *)
     learnQ (wn fin) = [(1, true)] /\ assigned_targets 6 tr = [] /\
@@ -63,6 +122,60 @@ Lemma clear_watch_fixed :
     assigned_targets 6 tr = [(1, true)] /\
     option_map msgs_of (nth_error tr 12) =
       Some [ {| maddr := 1; mvalue := VFloat (bi_float {| bmin := (0, 0); bmax := (1, 0) |} (3 * 128)) |} ].
+Proof.
+  eexists. eexists. split; [vm_compute; reflexivity |].
+  vm_compute. repeat split; reflexivity.
+Qed.
+
+(* (2) D19.  Before the fix every midi-bind released the oldest pending
+   controller on the realtime side, and a midi-use-CC that found the learn
+   queue empty was not answered.  The old functions and the history on which
+   the property fails with them (MidiProofs.d19_repaired: the same history on
+   the repaired functions). *)
+Lemma d19_refuted :
+  exists ports evs tr fin,
+    run_old19 ports world0 evs = (tr, Some fin) /\
+    (* controller 5 takes two queued addresses although it was never unmapped *)
+    assigned_targets 5 tr = [(0, true); (1, true)] /\
+    (* p1's assignment is lost: after p0 is unmapped 5 drives nothing *)
+    nth_error evs 20 = Some (ECC 5 67 1 false) /\ nth_error tr 20 = Some [] /\
+    inv_find 1 (inv_map (wn fin)) = Some (2, 5, -1, {| bmin := (0, 0); bmax := (1, 0) |}) /\
+    (* controller 0 was never assigned and drives p2 *)
+    assigned_targets 0 tr = [] /\
+    nth_error evs 21 = Some (ECC 0 9 1 false) /\
+    option_map msgs_of (nth_error tr 21) = Some [ {| maddr := 2; mvalue := VFloat (bi_float {| bmin := (-3, -1); bmax := (11, -2) |} 9) |} ] /\
+    nocross evs tr = false.
+Proof.
+  exists d19_ports, d19_history.
+  eexists. eexists.
+  split; [vm_compute; reflexivity |].
+  vm_compute. repeat split; reflexivity.
+Qed.
+
+(* the second half of the defect: two controllers on offer, clear(): neither
+   midi-use-CC finds an address, the bind of clear() released one of them, the
+   other stayed pending and could not be learned any more *)
+Definition stuck_history : list event :=
+  [ EMap 0 true; EMap 1 true; EDelR; EDelR; ECC 5 1 1 false; ECC 6 1 1 false; EClear;
+    EDelN; EDelN; EDelR; EDelR; EDelR; EDelR; EDelR;
+    EMap 0 true; EDelR; ECC 6 2 1 false; EDelN; EDelR; ECC 6 3 1 false ].
+
+Lemma stuck_refuted :
+  exists tr fin,
+    run_old19 d19_ports world0 stuck_history = (tr, Some fin) /\
+    nth_error tr 16 = Some [] /\                      (* p0 queued and watched, 6 not taken *)
+    learnQ (wn fin) = [(0, true)] /\ watch (wr fin) = 1 /\ assigned_targets 6 tr = [] /\
+    pq_has (pending (wr fin)) 6 = true.
+Proof.
+  eexists. eexists. split; [vm_compute; reflexivity |].
+  vm_compute. repeat split; reflexivity.
+Qed.
+
+Lemma stuck_repaired :
+  exists tr fin,
+    run d19_ports world0 stuck_history = (tr, Some fin) /\
+    nth_error tr 16 = Some [OU 6] /\ assigned_targets 6 tr = [(0, true)] /\
+    option_map msgs_of (nth_error tr 19) = Some [ {| maddr := 0; mvalue := VInt 3 |} ].
 Proof.
   eexists. eexists. split; [vm_compute; reflexivity |].
   vm_compute. repeat split; reflexivity.
